@@ -127,8 +127,9 @@ def check_free(ck, mod, label, rule="R-C20-FREE"):
         exact_or_over = bool(rng) and rng[0][0] <= 0 and rng[0][1] >= size and len(rng) == 1
         if not rng:
             continue  # must-wipe already refuted
-        ck.ob(covered, rule, fn, "wipe-range[%s]" % label,
-              "wiped range [0,%d) == sizeof(%s) = %d" % (size, tname, size),
+        # erasure needs every byte of the object wiped; wiping MORE than the object is a memory-safety matter (C06), not an erasure one
+        ck.ob(covered or exact_or_over, rule, fn, "wipe-range[%s]" % label,
+              "wiped range covers [0,%d) = sizeof(%s)" % (size, tname),
               "wiped byte ranges %s of the state do not equal [0,%d) = sizeof(%s): %s"
               % (rng, size, tname, "bytes beyond the object are written" if exact_or_over else "part of the state survives free"),
               where=relpath("%s:%d" % (f.file, f.line)))
